@@ -77,6 +77,7 @@ func (f *Count) Call(s *slip.Scope, args slip.List, depth int) (result slip.Obje
 
 	switch ta := args[1].(type) {
 	case nil:
+		sfv.checkBounds(s, depth, 0)
 		result = slip.Fixnum(0)
 	case slip.List:
 		result = slip.Fixnum(f.inList(s, ta, depth, &sfv))
@@ -91,9 +92,7 @@ func (f *Count) Call(s *slip.Scope, args slip.List, depth int) (result slip.Obje
 }
 
 func (f *Count) inList(s *slip.Scope, seq slip.List, depth int, sfv *seqFunVars) (count int) {
-	if sfv.end < 0 || len(seq) < sfv.end {
-		sfv.end = len(seq)
-	}
+	sfv.checkBounds(s, depth, len(seq))
 	d2 := depth + 1
 	if sfv.fromEnd {
 		for i := sfv.end - 1; sfv.start <= i; i-- {
@@ -133,9 +132,7 @@ func (f *Count) inList(s *slip.Scope, seq slip.List, depth int, sfv *seqFunVars)
 
 func (f *Count) inString(s *slip.Scope, seq slip.String, depth int, sfv *seqFunVars) (count int) {
 	ra := []rune(seq)
-	if sfv.end < 0 || len(ra) < sfv.end {
-		sfv.end = len(ra)
-	}
+	sfv.checkBounds(s, depth, len(ra))
 	d2 := depth + 1
 	var key slip.Object
 	if sfv.fromEnd {
